@@ -13,6 +13,7 @@ TARGETS = {
 CHECKS = {
     "C19": dict(
         promote=True,   # thorough bounds cost seconds: used for the quick tier as well
+        deep=True,      # ./check adds --deep for the thorough tier: bounds beyond the promoted ones (see bounds["thorough"])
         level="exploration",
         runs=[dict(name="aws", target="h_aws", args=[], quick=["--k", "4"], thorough=["--k", "4"],
                    env={"TZ": "VFT-13"})],   # a non-UTC local zone: a signer that used local time would be seen
